@@ -173,6 +173,7 @@ def render(cfg, pkg):
         body = ["\tGot = append(Got, %d)" % m["id"]] + ["\tGot = append(Got, mark(a%d))" % i for i in range(len(m["params"]))]
         body.append("\treturn " + ", ".join(m["retexprs"]))
         o.append("func (p *Parser) %s(%s) %s {\n%s\n}\n" % (m["name"], params, rsig, "\n".join(body)))
+    o.append(cfg.get("extra_go", ""))
     return "\n".join(o)
 
 
@@ -231,8 +232,23 @@ def configs(quick, rng, tix=None, rel=None):
     ms = b(); ms.append(method(8, "on_x__b", "x", ["Token"], "Expr", 7)); add("layout:rule-two-types-ambiguous", "*Node", "Expr", "Dict", ms)
     ms = b(); ms[0] = method(1, "on_s__x", "s", ["Expr"], "int", 1); add("layout:wrong-arity", "*Node", "Expr", "Dict", ms)
     ms = b(); ms.append(method(8, "helper_on_s", "", ["Token"], "int", 1)); add("layout:not-an-action-name", "*Node", "Expr", "Dict", ms)
+    # configurations in which every production is bound, so lox must succeed -- and then the package has to compile
+    ms = b(); add("compile:onbounds-ok", "*Node", "Expr", "Dict", ms); out[-1]["extra_go"] = "func (p *Parser) _onBounds(r any, b, e Token) {}\n"
+    ms = b(); add("compile:onbounds-wrong-arity", "*Node", "Expr", "Dict", ms); out[-1]["extra_go"] = "func (p *Parser) _onBounds(r any) {}\n"
+    ms = b(); add("compile:onbounds-wrong-types", "*Node", "Expr", "Dict", ms); out[-1]["extra_go"] = "func (p *Parser) _onBounds(r int, b, e string) {}\n"
+    ms = b(); add("compile:onbounds-returns", "*Node", "Expr", "Dict", ms); out[-1]["extra_go"] = "func (p *Parser) _onBounds(r any, b, e Token) int { return 0 }\n"
+    # x*! needs a Discard() bool method on the element type
+    lox2 = "@lexer\nC = 'c'\nD = 'd'\nE = 'e'\n\n@parser\n@start s = y*! C | D\ny = E\n"
+    for rid, rty in (("compile:starF-element-without-discard", "*Node"), ("compile:starF-element-with-discard", "*Disc")):
+        ms = [method(1, "on_s__a", "s", ["[]" + rty, "Token"], "int", 1), method(2, "on_s__b", "s", ["Token"], "int", 2),
+              method(6, "on_y", "y", ["Token"], "*Node", 8)]
+        if rty == "*Disc":
+            ms[2] = dict(ms[2]); ms[2]["rets"] = ["*Disc"]; ms[2]["retexprs"] = ["&Disc{}"]
+        add(rid, "*Node", "*Node", "*Node", ms)
+        out[-1]["lox"] = lox2
+        out[-1]["extra_go"] = "type Disc struct{}\n\nfunc (d *Disc) Discard() bool { return false }\n"
     if quick:
-        keep = [c for c in out if c["id"].startswith("layout") or c["id"].startswith("tok")]
+        keep = [c for c in out if c["id"].startswith("layout") or c["id"].startswith("tok") or c["id"].startswith("compile")]
         rest = [c for c in out if c not in keep]
         # always keep the configurations where the term's value type is assignable to, but not identical with, the parameter type
         def interesting(c):
@@ -272,7 +288,7 @@ def c06(tier):
         pkg = "b%04d" % n
         d = os.path.join(mod, pkg)
         os.makedirs(d, exist_ok=True)
-        open(os.path.join(d, "g.lox"), "w").write(LOX)
+        open(os.path.join(d, "g.lox"), "w").write(c.get("lox", LOX))
         open(os.path.join(d, "p.go"), "w").write(render(c, pkg))
         q = subprocess.run([lox, d], cwd=mod, env=GOENV, stdout=subprocess.PIPE, stderr=subprocess.PIPE, timeout=120)
         c["pkg"], c["dir"] = pkg, d
@@ -335,16 +351,21 @@ def c06(tier):
         return e
     bcases = []
     for c in cfgs:
-        ms = [{"rule": m["rule"] if m["rule"] else "?", "params": [tix[t] for t in m["params"]], "nret": len(m["rets"]),
+        ms = [{"rule": m["rule"] if m["rule"] else "?", "params": [tix.get(t, tix["int"]) for t in m["params"]], "nret": len(m["rets"]),
                "ret": tix.get(m["rets"][0], tix["int"])} for m in c["methods"] if m["name"].startswith("on_")]
         marks, exp = [], []
-        if c["ok"] and c.get("built"):
+        if c["ok"] and c.get("built") and not c.get("lox"):
             e = expected(c)
             for k in sorted(SENTENCES):
                 r = runs.get(c["pkg"], {}).get(k, {"ok": False, "got": [], "pan": "missing"})
                 marks.append([1 if r["ok"] else 0] + (r["got"] or []))
                 exp.append([1] + e[k])
-        bcases.append({"id": c["id"], "methods": ms, "ruletype": {"s": tix["int"], "x": tix[c["rx"]], "y": tix[c["ry"]], "z": tix[c["rz"]]},
+        ob = "none"
+        if c.get("lox"):
+            ob = "other-grammar"     # not the skeleton Binding.tla knows: only "if it succeeds it compiles" is asserted
+        elif "onbounds" in c["id"]:
+            ob = "ok" if c["id"].endswith("onbounds-ok") or c["id"].endswith("onbounds-returns") else "bad"
+        bcases.append({"id": c["id"], "onbounds": ob, "methods": ms, "ruletype": {"s": tix["int"], "x": tix[c["rx"]], "y": tix[c["ry"]], "z": tix[c["rz"]]},
                        "ok": c["ok"], "built": bool(c.get("built")), "marks": marks, "expmarks": exp})
     sd = spec_dir(sc, "spec-bind")
     json.dump({"types": UNIVERSE, "assignable": rel["assignable"], "identical": rel["identical"], "token": tix["Token"],
